@@ -173,7 +173,7 @@ theorem readDefined_paren (bs1 bs2 bs3 : List PTok) (x : String) (l1 l2 l3 : Boo
   have hsplit : splitArgs "defined" (bs1 ++ ⟨.lparen, l1⟩ :: (bs2 ++ ⟨.id x, l2⟩ :: (bs3 ++ ⟨.rparen, l3⟩ :: r))) =
       .ok (r, [[⟨.id x, l2⟩]]) := by
     unfold splitArgs
-    rw [ht]
+    rw [trimStartAll_blanks bs1 _ h1 ⟨.lparen, l1⟩ rfl]
     simp only [hscan, htrim]
   have e0 : bs1 ++ ⟨.lparen, l1⟩ :: bs2 ++ ⟨.id x, l2⟩ :: bs3 ++ ⟨.rparen, l3⟩ :: r =
       bs1 ++ ⟨.lparen, l1⟩ :: (bs2 ++ ⟨.id x, l2⟩ :: (bs3 ++ ⟨.rparen, l3⟩ :: r)) := by simp
